@@ -20,9 +20,12 @@ def run(ctx):
     import concurrent.futures
 
     def run_range(lo, hi, tag):
-        lines, pos, dead = [], lo, 0
-        while pos < hi:
-            part = os.path.join(ctx.work, "part-%s-%d.ndjson" % (tag, pos))
+        lines, pos, dead, budget_hits = [], lo, 0, 0
+        top = hi
+        while pos < top:
+            # one child process per slice of at most 1000 vectors (well inside the time budget of a child)
+            hi = min(top, pos + 1000)
+            part = os.path.join(ctx.work, "part-%s-%d-%d.ndjson" % (tag, pos, budget_hits))
             rc, out = vlib.go_run(ctx, binary, "TestVerifHostile", infile, part, timeout=1200,
                                   env={"VERIF_START": pos, "VERIF_STOP": hi}, allow_fail=True)
             got = vlib.read_ndjson(part) if os.path.exists(part) else []
@@ -31,8 +34,17 @@ def run(ctx):
             begun = [l["t"] for l in got if l["ev"] == "begin"]
             finished = {l["t"] for l in done}
             if rc == 0 and (not begun or begun[-1] in finished) and (not begun or begun[-1] == hi - 1):
-                break
+                pos = hi
+                continue
             inflight = [t for t in begun if t not in finished]
+            if rc in (124, 137):
+                # the child was stopped by this check's own time budget: that is not a death of the process under
+                # test; go on with the vector that was in flight (no outcome is recorded for it from this child)
+                budget_hits += 1
+                if budget_hits > 5:
+                    raise vlib.NoVerdict("hostile driver children keep running into the time budget")
+                pos = inflight[-1] if inflight else (begun[-1] + 1 if begun else pos)
+                continue
             if inflight:
                 t = inflight[-1]
                 v = vecs[t]
